@@ -54,6 +54,13 @@ Theorem invalid_format_mixed_layer_no_effects :
     exists e, serve_tile ly cached q = (Err e, []).
 Proof. exact serve_tile_invalid_format_mixed. Qed.
 
+(* A GetFeatureInfo request (KVP or REST) whose InfoFormat is not one the service offers - a service without
+   featureinfo_formats offers none - is refused without effects. *)
+Theorem unknown_infoformat_no_effects :
+  forall ly cached q,
+    is_fi (rsvc q) = true -> rinfo_ok q = false -> exists e, serve_tile ly cached q = (Err e, []).
+Proof. exact serve_tile_unknown_infoformat. Qed.
+
 (* Every tile request - GetTile and GetFeatureInfo - with a dimension value that is neither offered nor "default" /
    empty (dims_of: WMTS passes the request dimensions, TMS / KML never carry any) is refused without effects. *)
 Theorem invalid_dimension_no_effects :
@@ -118,3 +125,10 @@ Theorem effects_inside_grid_map :
   forall mp se ly cached q e,
     layer_wf ly -> ress (lg ly) <> [] -> In e (snd (serve_map mp se ly cached q)) -> effect_inside ly e.
 Proof. exact serve_map_inside. Qed.
+
+(* With a meta_buffer the bbox of every upstream request (up_request, see effect_inside) lies inside the grid bbox. *)
+Theorem buffered_request_inside_grid_bbox :
+  forall ly l ub, 0 < lbuf ly ->
+    let '(x0, y0, x1, y1) := buffered_bbox ly l ub in
+    gx0 (lg ly) <= x0 /\ gy0 (lg ly) <= y0 /\ x1 <= gx1 (lg ly) /\ y1 <= gy1 (lg ly).
+Proof. exact buffered_bbox_in_grid_bbox. Qed.
